@@ -1,248 +1,15 @@
-//! Calls into the library under test: every form of every arithmetic /
-//! rounding operation, each under its own `catch_unwind`.
+//! Dispatch to the part crates (arith-sa/sb/ua/ub), which hold the calls into the
+//! library under test and are separate crates only so that they compile in parallel.
 
-use lay::VF;
-use substrate_fixed::traits::{FixedSigned, FixedUnsigned};
-use vcore::{cu, Out};
-
-pub const ADD: u16 = 0;
-pub const SUB: u16 = 1;
-pub const MUL: u16 = 2;
-pub const DIV: u16 = 3;
-pub const REM: u16 = 4;
-pub const DIV_EUCLID: u16 = 5;
-pub const REM_EUCLID: u16 = 6;
-pub const MUL_INT: u16 = 7;
-pub const DIV_INT: u16 = 8;
-pub const REM_INT: u16 = 9;
-pub const DIV_EUCLID_INT: u16 = 10;
-pub const REM_EUCLID_INT: u16 = 11;
-pub const NEG: u16 = 12;
-pub const ABS: u16 = 13;
-pub const CEIL: u16 = 14;
-pub const FLOOR: u16 = 15;
-pub const ROUND: u16 = 16;
-pub const ROUND_TE: u16 = 17;
-pub const ROUND_TO_ZERO: u16 = 18;
-pub const INT: u16 = 19;
-pub const NOPS: u16 = 20;
-
-pub const OP_NAMES: [&str; NOPS as usize] = [
-    "add", "sub", "mul", "div", "rem", "div_euclid", "rem_euclid", "mul_int", "div_int", "rem_int", "div_euclid_int",
-    "rem_euclid_int", "neg", "abs", "ceil", "floor", "round", "round_ties_to_even", "round_to_zero", "int_frac",
-];
-
-pub fn is_int_rhs(op: u16) -> bool {
-    (MUL_INT..=REM_EUCLID_INT).contains(&op)
-}
-pub fn is_unary(op: u16) -> bool {
-    op >= NEG
-}
-
-pub type Outs = Vec<(&'static str, Out)>;
-
-#[inline]
-fn v<F: VF>(x: F) -> Out {
-    Out::V(x.raw())
-}
-#[inline]
-fn o<F: VF>(x: Option<F>) -> Out {
-    Out::O(x.map(|y| y.raw()))
-}
-#[inline]
-fn fl<F: VF>(x: (F, bool)) -> Out {
-    Out::F(x.0.raw(), x.1)
-}
-
-fn ref_forms<F: VF>(outs: &mut Outs, a: F, b: F, op: u8) {
-    outs.push(("ref&&", cu(|| v(F::ref_op(a, b, op, 0)))));
-    outs.push(("ref&v", cu(|| v(F::ref_op(a, b, op, 1)))));
-    outs.push(("refv&", cu(|| v(F::ref_op(a, b, op, 2)))));
-    outs.push(("assign", cu(|| v(F::ref_op(a, b, op, 3)))));
-    outs.push(("assign&", cu(|| v(F::ref_op(a, b, op, 4)))));
-}
-fn ref_forms_int<F: VF>(outs: &mut Outs, a: F, n: F::Bits, op: u8)
-where
-    F::Bits: Copy,
-{
-    outs.push(("ref&&", cu(|| v(F::ref_op_int(a, n, op, 0)))));
-    outs.push(("ref&v", cu(|| v(F::ref_op_int(a, n, op, 1)))));
-    outs.push(("refv&", cu(|| v(F::ref_op_int(a, n, op, 2)))));
-    outs.push(("assign", cu(|| v(F::ref_op_int(a, n, op, 3)))));
-    outs.push(("assign&", cu(|| v(F::ref_op_int(a, n, op, 4)))));
-}
-
-#[allow(deprecated)]
-pub fn exec_common<F: VF>(op: u16, ar: u128, br: u128) -> Outs
-where
-    F::Bits: Copy,
-{
-    let a = F::from_raw(ar);
-    let b = F::from_raw(br);
-    let n = F::bits_from_raw(br);
-    let mut outs: Outs = Vec::with_capacity(10);
-    match op {
-        ADD => {
-            outs.push(("checked", cu(|| o(a.checked_add(b)))));
-            outs.push(("saturating", cu(|| v(a.saturating_add(b)))));
-            outs.push(("wrapping", cu(|| v(a.wrapping_add(b)))));
-            outs.push(("overflowing", cu(|| fl(a.overflowing_add(b)))));
-            outs.push(("plain", cu(|| v(a + b))));
-            ref_forms(&mut outs, a, b, 0);
-        }
-        SUB => {
-            outs.push(("checked", cu(|| o(a.checked_sub(b)))));
-            outs.push(("saturating", cu(|| v(a.saturating_sub(b)))));
-            outs.push(("wrapping", cu(|| v(a.wrapping_sub(b)))));
-            outs.push(("overflowing", cu(|| fl(a.overflowing_sub(b)))));
-            outs.push(("plain", cu(|| v(a - b))));
-            ref_forms(&mut outs, a, b, 1);
-        }
-        MUL => {
-            outs.push(("checked", cu(|| o(a.checked_mul(b)))));
-            outs.push(("saturating", cu(|| v(a.saturating_mul(b)))));
-            outs.push(("wrapping", cu(|| v(a.wrapping_mul(b)))));
-            outs.push(("overflowing", cu(|| fl(a.overflowing_mul(b)))));
-            outs.push(("plain", cu(|| v(a * b))));
-            ref_forms(&mut outs, a, b, 2);
-        }
-        DIV => {
-            outs.push(("checked", cu(|| o(a.checked_div(b)))));
-            outs.push(("saturating", cu(|| v(a.saturating_div(b)))));
-            outs.push(("wrapping", cu(|| v(a.wrapping_div(b)))));
-            outs.push(("overflowing", cu(|| fl(a.overflowing_div(b)))));
-            outs.push(("plain", cu(|| v(a / b))));
-            ref_forms(&mut outs, a, b, 3);
-        }
-        REM => {
-            outs.push(("checked", cu(|| o(a.checked_rem(b)))));
-            outs.push(("plain", cu(|| v(a % b))));
-            ref_forms(&mut outs, a, b, 4);
-        }
-        DIV_EUCLID => {
-            outs.push(("checked", cu(|| o(a.checked_div_euclid(b)))));
-            outs.push(("saturating", cu(|| v(a.saturating_div_euclid(b)))));
-            outs.push(("wrapping", cu(|| v(a.wrapping_div_euclid(b)))));
-            outs.push(("overflowing", cu(|| fl(a.overflowing_div_euclid(b)))));
-            outs.push(("plain", cu(|| v(a.div_euclid(b)))));
-        }
-        REM_EUCLID => {
-            outs.push(("checked", cu(|| o(a.checked_rem_euclid(b)))));
-            outs.push(("plain", cu(|| v(a.rem_euclid(b)))));
-        }
-        MUL_INT => {
-            outs.push(("checked", cu(|| o(a.checked_mul_int(n)))));
-            outs.push(("saturating", cu(|| v(a.saturating_mul_int(n)))));
-            outs.push(("wrapping", cu(|| v(a.wrapping_mul_int(n)))));
-            outs.push(("overflowing", cu(|| fl(a.overflowing_mul_int(n)))));
-            outs.push(("plain", cu(|| v(a * n))));
-            ref_forms_int(&mut outs, a, n, 2);
-        }
-        DIV_INT => {
-            outs.push(("checked", cu(|| o(a.checked_div_int(n)))));
-            outs.push(("wrapping", cu(|| v(a.wrapping_div_int(n)))));
-            outs.push(("overflowing", cu(|| fl(a.overflowing_div_int(n)))));
-            outs.push(("plain", cu(|| v(a / n))));
-            ref_forms_int(&mut outs, a, n, 3);
-        }
-        REM_INT => {
-            outs.push(("checked", cu(|| o(a.checked_rem_int(n)))));
-            outs.push(("wrapping", cu(|| v(a.wrapping_rem_int(n)))));
-            outs.push(("overflowing", cu(|| fl(a.overflowing_rem_int(n)))));
-            outs.push(("plain", cu(|| v(a % n))));
-            ref_forms_int(&mut outs, a, n, 4);
-        }
-        DIV_EUCLID_INT => {
-            outs.push(("checked", cu(|| o(a.checked_div_euclid_int(n)))));
-            outs.push(("wrapping", cu(|| v(a.wrapping_div_euclid_int(n)))));
-            outs.push(("overflowing", cu(|| fl(a.overflowing_div_euclid_int(n)))));
-            outs.push(("plain", cu(|| v(a.div_euclid_int(n)))));
-        }
-        REM_EUCLID_INT => {
-            outs.push(("checked", cu(|| o(a.checked_rem_euclid_int(n)))));
-            outs.push(("wrapping", cu(|| v(a.wrapping_rem_euclid_int(n)))));
-            outs.push(("overflowing", cu(|| fl(a.overflowing_rem_euclid_int(n)))));
-            outs.push(("plain", cu(|| v(a.rem_euclid_int(n)))));
-        }
-        NEG => {
-            outs.push(("checked", cu(|| o(a.checked_neg()))));
-            outs.push(("saturating", cu(|| v(a.saturating_neg()))));
-            outs.push(("wrapping", cu(|| v(a.wrapping_neg()))));
-            outs.push(("overflowing", cu(|| fl(a.overflowing_neg()))));
-        }
-        CEIL => {
-            outs.push(("checked", cu(|| o(a.checked_ceil()))));
-            outs.push(("saturating", cu(|| v(a.saturating_ceil()))));
-            outs.push(("wrapping", cu(|| v(a.wrapping_ceil()))));
-            outs.push(("overflowing", cu(|| fl(a.overflowing_ceil()))));
-            outs.push(("plain", cu(|| v(a.ceil()))));
-        }
-        FLOOR => {
-            outs.push(("checked", cu(|| o(a.checked_floor()))));
-            outs.push(("saturating", cu(|| v(a.saturating_floor()))));
-            outs.push(("wrapping", cu(|| v(a.wrapping_floor()))));
-            outs.push(("overflowing", cu(|| fl(a.overflowing_floor()))));
-            outs.push(("plain", cu(|| v(a.floor()))));
-        }
-        ROUND => {
-            outs.push(("checked", cu(|| o(a.checked_round()))));
-            outs.push(("saturating", cu(|| v(a.saturating_round()))));
-            outs.push(("wrapping", cu(|| v(a.wrapping_round()))));
-            outs.push(("overflowing", cu(|| fl(a.overflowing_round()))));
-            outs.push(("plain", cu(|| v(a.round()))));
-        }
-        ROUND_TE => {
-            outs.push(("checked", cu(|| o(a.checked_round_ties_to_even()))));
-            outs.push(("saturating", cu(|| v(a.saturating_round_ties_to_even()))));
-            outs.push(("wrapping", cu(|| v(a.wrapping_round_ties_to_even()))));
-            outs.push(("overflowing", cu(|| fl(a.overflowing_round_ties_to_even()))));
-            outs.push(("plain", cu(|| v(a.round_ties_to_even()))));
-        }
-        ROUND_TO_ZERO => {
-            outs.push(("plain", cu(|| v(a.round_to_zero()))));
-        }
-        INT => {
-            outs.push(("int", cu(|| v(a.int()))));
-            outs.push(("frac", cu(|| v(a.frac()))));
-        }
-        _ => {}
-    }
-    outs
-}
-
-pub fn exec_signed<F: VF + FixedSigned>(op: u16, ar: u128, br: u128) -> Outs
-where
-    F::Bits: Copy,
-{
-    let a = F::from_raw(ar);
-    match op {
-        NEG => {
-            let mut outs = exec_common::<F>(op, ar, br);
-            outs.push(("plain", cu(|| v(-a))));
-            outs.push(("ref&", cu(|| v(F::ref_un(a, 0)))));
-            outs
-        }
-        ABS => vec![
-            ("checked", cu(|| o(a.checked_abs()))),
-            ("saturating", cu(|| v(a.saturating_abs()))),
-            ("wrapping", cu(|| v(a.wrapping_abs()))),
-            ("overflowing", cu(|| fl(a.overflowing_abs()))),
-            ("plain", cu(|| v(a.abs()))),
-        ],
-        _ => exec_common::<F>(op, ar, br),
-    }
-}
-
-pub fn exec_unsigned<F: VF + FixedUnsigned>(op: u16, ar: u128, br: u128) -> Outs
-where
-    F::Bits: Copy,
-{
-    match op {
-        ABS => Vec::new(),
-        _ => exec_common::<F>(op, ar, br),
-    }
-}
+pub use arith_sa::{ABS, ADD, CEIL, DIV, DIV_EUCLID, DIV_EUCLID_INT, DIV_INT, FLOOR, INT, MUL, MUL_INT, NEG, NOPS, OP_NAMES, REM, REM_EUCLID, REM_EUCLID_INT, REM_INT, ROUND, ROUND_TE, ROUND_TO_ZERO, SUB};
+pub use arith_sa::{is_int_rhs, is_unary};
+use vcore::out::{drive, Outs};
 
 pub fn exec(lay: u16, op: u16, a: u128, b: u128) -> Outs {
-    lay::with_layout!(lay as usize, F => exec_signed::<F>(op, a, b) ; exec_unsigned::<F>(op, a, b))
+    drive(&mut |st, outs| match lay {
+        0..=123 => arith_sa::run(st, lay, op, a, b, outs),
+        124..=252 => arith_sb::run(st, lay, op, a, b, outs),
+        253..=376 => arith_ua::run(st, lay, op, a, b, outs),
+        _ => arith_ub::run(st, lay, op, a, b, outs),
+    })
 }
